@@ -111,6 +111,18 @@ def handle (s : St) (line : String) : St × String :=
         | some (i, v) => s!"ok {hexOf i} {hexOf v}"
         | none => "none")
     | none => (s, "bad-op")
+  | ["rt", id, ver] =>
+    match tok id, tok ver with
+    | some i, some v => (s, match getIdentifierAndVersion (getVersionedPath i v) with
+        | some (i', v') => s!"ok {hexOf i'} {hexOf v'}"
+        | none => "none")
+    | _, _ => (s, "bad-op")
+  | ["rtb", p] =>
+    match tok p with
+    | some p => (s, match getIdentifierAndVersion p with
+        | some (i, v) => s!"ok {hexOf (getVersionedPath i v)}"
+        | none => "none")
+    | none => (s, "bad-op")
   | ["rawver", v] =>
     match tok v with
     | some v => (s, if matchRawVersion v then "match" else "nomatch")
